@@ -22,10 +22,10 @@ def run(tier: str, seed: int):
                # a worker process that never exits after sending its result (a left-over non-daemon thread)
                + list(F.fam_e3(F.fam_limits(2, 3, tnames=('TA',)), workers=(1, 2), backends=('fork',), liveness=False, linger=True)))
     else:
-        cfgs = (list(F.fam_limits(1, 4, batch=3, faults=True, tnames=('TA', 'TB', 'TC', 'TD'), stutter=True))
+        cfgs = (list(F.fam_limits(1, 3, batch=3, faults=True, tnames=('TA', 'TB', 'TC', 'TD'), stutter=True)) + list(F.fam_limits(4, 4, batch=3, faults=True, tnames=('TA', 'TB', 'TC', 'TD')))
                 + list(F.fam_limits(5, 5, batch=2, tnames=('TB', 'TC'))) + list(F.fam_shapes(1, 4, batch=2)) + list(F.fam_shapes(5, 5, batch=2, pre=False)) + list(F.fam_limits_special(3, batch=3)) + list(F.fam_limits_warm(3, batch=3)) + list(F.fam_inherit(3, batch=3, faults=True)))
         serial = list(F.fam_limits(1, 4, batch=1)) + list(F.fam_limits_special(3))
-        rule = 'n<=4 x {None,1,2,3} x faults x stutter, batch<=3; n=5 (cold cache)'
+        rule = 'n<=4 x {None,1,2,3} x faults (n<=3: with empty polls), batch<=3; n=5 (cold cache)'
         e3c = list(F.fam_e3(F.fam_limits(1, 3, tnames=('TA', 'TB', 'TC'), faults=True), workers=(1, 2, 3, None), cpu_count=3)) + list(F.fam_e3(F.fam_limits(4, 4, tnames=('TA', 'TB')), workers=(2, 3), cpu_count=3, liveness=False)) + list(F.fam_e3(F.fam_limits(2, 3, tnames=('TA', 'TB')), workers=(1, 2), linger=True)) + list(F.fam_e3(F.fam_limits_special(3), workers=(2, 3), cpu_count=3)) + list(F.fam_e3(F.fam_inherit(3), workers=(2, 3), cpu_count=3, liveness=False))
     # the Lab object has been through a call that a failure aborted while limited-type tasks were in flight
     cfgs = list(cfgs) + list(F.fam_history_abort(2))
